@@ -17,7 +17,8 @@ def main(argv):
     d = chk.scratch(tlc.stage())
     if thorough:
         p = os.path.join(d, 'FilterCases.cfg')
-        open(p, 'w').write(open(p).read().replace('MaxLen = 3', 'MaxLen = 4').replace('MaxWord = 3', 'MaxWord = 4'))
+        cfg = open(p).read().replace('MaxLen = 3', 'MaxLen = 4').replace('MaxWord = 3', 'MaxWord = 4')
+        open(p, 'w').write(cfg)
     r = tlc.run(d, 'FilterCases', 'FilterCases.cfg', workers=1, timeout=2400, heap='16g')
     p = os.path.join(d, 'filter_cases.json')
     if not os.path.exists(p):
